@@ -108,9 +108,14 @@ class JSONStore(MutableMapping):
 
     def _update_store(self):
         # Serialise store to JSON and write the JSON to the json_store file.
+        # Write a temporary file then rename it over the json_store file, so
+        # that a crash or an I/O error during the write can't destroy the
+        # items that have previously been stored.
+        tmp = self.json_store + ".tmp"
         try:
-            with open(self.json_store, "w") as fp:
+            with open(tmp, "w") as fp:
                 json.dump(self.store, fp)
+            os.replace(tmp, self.json_store)
             self.logger.info("Updating JSONStore: {}".format(self.json_store))
         except IOError as e:
             raise
